@@ -67,12 +67,11 @@ WHAT_UPPER = ("fields._dipole_vector: a dipole/wire segment with zero extent in 
               "cell (min_max_ind returns n, the loop is range(n, n)); all three components are then 0/0 = NaN "
               "after the 'Normalizing Source' warning; the same segment on the FIRST node is handled correctly")
 
-HEADER = K.CASE_HEADER + """From Coq Require Import Qabs.
-From V Require Import Model.Source.
+HEADER = "From Coq Require Import Qabs.\n" + K.CASE_HEADER + """From V Require Import Model.Source.
 Definition res_head (r : SrcRes Q) : list Z :=
   match r with
   | SErr c => [c]
-  | SOk _ st => 0 :: flat_map (fun t => [fst (fst t); snd (fst t); snd t]) st
+  | SOk _ st => 0%Z :: flat_map (fun t => [fst (fst t); snd (fst t); snd t]) st
   end.
 Definition res_dump {B} (o : Q -> B) (r : SrcRes Q) (c n1 n2 n3 : Z) : list B :=
   match r with SErr _ => [] | SOk l _ => dump3 o n1 n2 n3 (cfield l c) end.
